@@ -56,7 +56,15 @@ impl SimCase {
         s
     }
     pub fn network(&self) -> Network {
-        Network::new(Duration::from_nanos(self.delay_ns), self.pps)
+        // the fields of Network are public: half of the cases (decided by the seed) set the limit through
+        // the field instead of the constructor
+        if self.seed % 2 == 0 {
+            let mut n = Network::new(Duration::from_nanos(self.delay_ns), None);
+            n.pps = self.pps;
+            n
+        } else {
+            Network::new(Duration::from_nanos(self.delay_ns), self.pps)
+        }
     }
     pub fn args(&self) -> SimulatorArgs {
         let mut a = SimulatorArgs::new(self.network(), self.max_trace_length, self.only_network);
@@ -118,6 +126,28 @@ pub fn gen_trace(r: &mut Xo, max_lines: usize) -> Vec<(u64, bool)> {
             };
             v.push((t, dir));
             t += gap + r.below(jitter + 1);
+        }
+        return v;
+    }
+    if max_lines >= 12 && r.chance(1, 8) {
+        // isolated bursts: k packets with one and the same timestamp in one direction, the bursts more
+        // than 100 ms apart (the window of the rate limit derived from the trace), possibly a single burst
+        let mut v = vec![];
+        let mut t = r.range(0, 3) * 1_000_000;
+        let same_dir = r.chance(2, 3);
+        let mut dir = r.chance(1, 2);
+        while v.len() < max_lines {
+            let k = (*r.pick(&[2u64, 3, 4, 4, 5, 8, 12, 12, 20, 40])).min((max_lines - v.len()) as u64);
+            if !same_dir {
+                dir = r.chance(1, 2);
+            }
+            for _ in 0..k {
+                v.push((t, dir));
+            }
+            t += *r.pick(&[101u64, 120, 150, 150, 200, 334, 500, 1000]) * 1_000_000;
+            if r.chance(1, 6) {
+                break;
+            }
         }
         return v;
     }
